@@ -1,5 +1,9 @@
 -- REGENERATED from src/core/cycle_detector.go by /verif/harness/extract/c06 on every run. Do not edit.
 namespace PlzVerif.Generated.C06
+def persistPre : Bool := false
+def persistPost : Bool := false
+def detectorCollectionFields : List String := []
+def checkWritesFields : List String := []
 def guards : List String := ["stopped:nil", "in:post:nil", "in:pre:self"]
 def completeFirst : Bool := true
 def preLoop : List String := ["mark:pre"]
